@@ -144,14 +144,18 @@ def _vary(rng, pkind, lo, hi, strong):
             ("logistic3", (a, b, rng.choice([-1, 1]) * u(0.3, 2.0)))][k]
 
 
-# bounded densities only (no integrable singularity at the lower end of the support): used where
-# the code under test and the reference both rely on adaptive quadrature
+# Quadrature-friendly parameter ranges, used where the code under test and the reference both rely
+# on adaptive quadrature: (a) bounded densities only (no integrable singularity at the lower end of
+# the support); (b) no location-like parameter that GROWS with the given (Weibull gamma, the mean
+# of LogNormalNormFit): a conditional density whose bulk is narrow relative to its distance from 0
+# is invisible to scipy's quad over (0, inf) -- that regime is exercised by named cases in c06.py.
 SPEC_SMOOTH = dict(SPEC)
 SPEC_SMOOTH.update({
-    "weibull": [("alpha", "scale", 0.6, 3.0), ("beta", "shape", 1.3, 3.0), ("gamma", "loc+", 0.0, 1.0)],
+    "weibull": [("alpha", "scale", 0.6, 3.0), ("beta", "shape", 1.3, 3.0), ("gamma", "shape", 0.0, 1.0)],
     "expweibull": [("alpha", "scale", 0.6, 3.0), ("beta", "shape", 1.2, 2.5), ("delta", "shape", 1.0, 3.0)],
     "gengamma": [("m", "shape", 1.3, 3.0), ("c", "shape", 1.0, 2.5), ("lambda_", "shape", 0.4, 2.0)],
     "lognormal": [("mu", "logloc", -0.5, 1.5), ("sigma", "shape", 0.25, 0.6)],
+    "lognormfit": [("mu_norm", "shape", 1.0, 4.0), ("sigma_norm", "shape", 0.4, 1.5)],
 })
 
 
